@@ -43,6 +43,8 @@ where
             let mut linger = linger;
             let mut ready_gap = 0u64;
             let mut call_gap_us = 0u64;
+            // `clone().oneshot(req)` style: the service value is gone as soon as the call future exists
+            let mut drop_svc = w.oneshot_style.load(std::sync::atomic::Ordering::Relaxed) != 0;
             if linger == Linger::Auto {
                 let habits = w.habits.load(std::sync::atomic::Ordering::Relaxed);
                 linger = Linger::No;
@@ -60,9 +62,10 @@ where
                     if (h >> 24) % 10 == 0 {
                         call_gap_us = [500u64, 3000, 20_000, 150_000][((h >> 32) % 4) as usize];
                     }
+                    drop_svc = drop_svc || (h >> 40) % 4 == 0;
                 }
             }
-            if linger == Linger::No && ready_gap == 0 && call_gap_us == 0 {
+            if linger == Linger::No && ready_gap == 0 && call_gap_us == 0 && !drop_svc {
                 do_call(&w, &mut svc, req, pause, &map).await;
                 return;
             }
@@ -83,6 +86,12 @@ where
             }
             let mut fut = Box::pin(svc.call(req));
             w.log(Ev::Issued { req: id });
+            let svc = if drop_svc {
+                drop(svc);
+                None
+            } else {
+                Some(svc)
+            };
             if pause {
                 yield_once().await;
             }
@@ -108,6 +117,7 @@ where
             }
             w.log(Ev::Note { what: format!("late-drop r{id}") });
             drop(fut);
+            drop(svc);
         }))
     }
 }
